@@ -245,7 +245,7 @@ def _compress(path):
     return keep
 
 
-def r2_delete_order(ctx):
+def r2_delete_order(ctx, rule='C03.R2'):
     corpus = ctx.corpus
     cls = repo_cls(corpus)
     fn = corpus.func('repository', 'Repository.delete_snapshots')
@@ -267,14 +267,14 @@ def r2_delete_order(ctx):
             elif is_list_files_elem(t, SNAP):
                 ds[id(st)] = (st, call)
             else:
-                ctx.fail('C03.R2', f'{func_label(fn)}|unclassified-delete', loc(fn, st), f'deletion target of unknown origin: {show(t, limit=200)}')
+                ctx.fail(rule, f'{func_label(fn)}|unclassified-delete', loc(fn, st), f'deletion target of unknown origin: {show(t, limit=200)}')
     if not ds or not dc:
-        raise AnalysisError(f'C03.R2: delete_snapshots: snapshot deletions found={len(ds)}, chunk deletions found={len(dc)}')
+        raise AnalysisError(f'{rule}: delete_snapshots: snapshot deletions found={len(ds)}, chunk deletions found={len(dc)}')
     same = set(ds) & set(dc)
     if same:
         st = ds[next(iter(same))][0]
         ctx.fail(
-            'C03.R2',
+            rule,
             f'{func_label(fn)}|snapshot-deletes-before-chunk-deletes',
             loc(fn, st),
             'snapshot objects and chunk objects are deleted by the same join: a chunk can be removed while the snapshot that references it is still visible',
@@ -289,10 +289,10 @@ def r2_delete_order(ctx):
         for n in cfg.nodes_of(st, ('stmt', 'with_enter')):
             path = cfg.path(cfg.entry, [n], avoid=ds_ok)
             if path is None and ds_ok:
-                ctx.ok('C03.R2', loc(fn, st), 'chunk deletions are dominated by the normal completion of the snapshot-object deletions')
+                ctx.ok(rule, loc(fn, st), 'chunk deletions are dominated by the normal completion of the snapshot-object deletions')
             else:
                 ctx.fail(
-                    'C03.R2',
+                    rule,
                     f'{func_label(fn)}|snapshot-deletes-before-chunk-deletes',
                     loc(fn, st),
                     'chunk objects can be deleted on a path where the snapshot objects were not (all) deleted first: an interruption leaves a visible snapshot without its chunks',
